@@ -41,7 +41,12 @@ NONDET_CALLS = ("time.", "random.", "secrets.", "uuid.", "os.urandom", "os.getpi
                 "email.utils.make_msgid", "email.utils.formatdate", "email.utils.localtime", "tempfile.",
                 "os.getcwd", "os.listdir", "os.scandir", "os.walk", "glob.glob", "glob.iglob", "os.getuid", "os.getgid", "os.stat", "os.path.getmtime",
                 "os.path.getctime", "os.path.getatime", "os.path.expanduser", "os.cpu_count", "sys.getrefcount", "gc.", "weakref.",
-                "socket.gethostname", "socket.getfqdn", "platform.", "getpass.getuser", "threading.get_ident", "threading.current_thread")
+                "socket.gethostname", "socket.getfqdn", "platform.", "getpass.getuser", "threading.get_ident", "threading.current_thread",
+                # the process environment / locale / terminal (extraction is a function of (bytes, path) only)
+                "os.getenv", "os.getenvb", "os.environb", "locale.", "sys.getfilesystemencoding", "os.get_terminal_size", "shutil.get_terminal_size",
+                "os.uname", "pathlib.Path.cwd", "pathlib.Path.home",
+                # completion order of concurrent work
+                "concurrent.futures.as_completed", "concurrent.futures.wait")
 
 
 def canonical(mod, e):
@@ -970,11 +975,40 @@ def validate_assumed_purity(repo, tier):
     if "mismatches" not in res:
         return {"obligations": [], "undecided": [{"obligation": oid, "why": "native validation did not run: " + str(res.get("note", ""))[:200]}]}
     mm = res["mismatches"]
-    o = ground_obligation(oid, not mm, "; ".join(f"{m[0]}: {m[1]} {m[2]}" for m in mm[:6]) or f"{res.get('fixtures')} documents agree",
+    rec = res.get("recorded") or []
+    o = ground_obligation(oid, not mm, "; ".join(f"{m[0]}: {m[1]} {m[2]}" for m in mm[:6]) or
+                          f"{res.get('fixtures')} documents agree" + (f" (apart from {len(rec)} difference(s) recorded as known finding)" if rec else ""),
                           "package", kind="assumption-validation", backend="native-replay(bounded: repository fixtures + synthetic documents, 2 processes)")
     o["bounded"] = True      # DESIGN 2.8: a bounded stand-in, never counted as discharged
-    o["bound"] = "repository fixtures + replay/C06.py::synth_corpus, 2 fresh processes (PYTHONHASHSEED 1/2, opposite corpus order)"
-    return {"obligations": [o]}
+    o["bound"] = ("repository fixtures + replay/C06.py::synth_corpus, 2 fresh processes (PYTHONHASHSEED 1/2, opposite corpus order, different "
+                  "locale / time zone / working directory / environment)")
+    out = [o]
+    # differences recorded in known_findings.json: one failing obligation per finding, reported under the finding (hook below)
+    for fid in sorted({m[3] for m in rec}):
+        mine = [m for m in rec if m[3] == fid]
+        k = ground_obligation(f"{oid}/recorded[{fid}]", False, "; ".join(f"{m[0]}: {m[1]} {m[2]}" for m in mine[:6]), "package",
+                              kind="assumption-validation", backend="native-replay(bounded)")
+        k["finding"] = fid
+        out.append(volatile(k))
+    return {"obligations": out}
+
+
+def known_findings(kf, violations, repo, tier):
+    """Recorded findings of this pack are differences seen by the native validation run (known_findings.json: `mismatch` = where
+    the runs differ).  A finding is reported as long as the run still shows it and covers exactly its own `recorded[...]`
+    obligation; every other difference stays a violation."""
+    out = []
+    try:
+        vio = {o["id"]: o for o in violations}
+        for f in kf:
+            oid = f"C06/package/assumed-contract-validation#fixtures-identical-across-fresh-processes/recorded[{f['id']}]"
+            still = oid in vio
+            seen = (vio[oid].get("reason") or "")[:200] if still else "-"
+            out.append({"finding": f["id"], "still_fails": still, "covers": [oid] if still else [],
+                        "line": f"finding={f['id']} obligation={oid} observed={seen!r}: {f.get('what', '')[:160]}"})
+    except Exception:  # noqa -- never let the hook fail the check
+        pass
+    return out
 
 
 EXTRA = [policy, validate_assumed_purity]
